@@ -200,7 +200,7 @@ def plan():
         return H(f"ser_ub_{thr}_{a}_{b}_{c}_{n}", f"ser_upper_bound::<{a}, {b}, {c}>({thr}, {n})", mod="serialize", macro="h_ser", unwind=40, tiers=tiers, rules=[(r"^memcmp", None, 18)],
                  covers=["upper bound attained exactly (last block stored raw)"], funcs=["serialize.rs::CompressedStreamWriter::{with_block_threshold,serialized_len_upperbound_after,append,flush_block,finish}"],
                  cuts=["zstd = any-length codec model (compress returns any length <= input, or fails)"], bounds={"block_threshold": thr, "items": f"{n} byte-array items of lengths {[a, b, c][:n]} (each <= one block), contents symbolic"},
-                 desc="finished stream never longer than the upper bound announced before the last append", mem=6)
+                 desc="finished stream never longer than the upper bound announced before the last append", mem=14)
     P["C07"] = [ser_ub(3, 5, 3, 8, 3, ("quick", "thorough")), ser_ub(6, 7, 1, 8, 2, ("quick", "thorough")), ser_ub(8, 8, 8, 8, 3, ("quick", "thorough")), snd_content(0b011, ("quick", "thorough")),
                 snd_decision(False, ("quick", "thorough")), ser_ub(1, 1, 1, 8, 3, ("thorough",)), ser_ub(7, 2, 8, 8, 3, ("thorough",)), ser_ub(16, 3, 14, 16, 3, ("thorough",)), ser_ub(5, 12, 16, 16, 3, ("thorough",)),
                 snd_content(0b111, ("thorough",)), snd_content(0b001, ("thorough",)), snd_content(0b101, ("thorough",)), snd_decision(True, ("thorough",)),
@@ -229,6 +229,10 @@ def plan():
     P["C12"] = [fd_sched(86400, ("quick", "thorough")), fd_sched(10, ("quick", "thorough")), lib_hb(0, ("quick", "thorough")), lib_hb(2, ("thorough",), mem=30), lib_hb(1, ("thorough",), mem=20),
                 snd_decision(False, ("quick", "thorough")), classify(0, ("quick", "thorough")), classify(4, ("thorough",)), fd_sched(3600, ("thorough",)), snd_decision(True, ("thorough",))]
     P["C11"] += [lib_hb(0, ("quick", "thorough")), lib_hb(1, ("thorough",), mem=20)]
+    def digest(two, tiers):
+        return H(f"c12_digest_{2 if two else 1}", f"c12_digest({str(two).lower()})", tiers=tiers, covers=["one member scheduled for deletion"], funcs=["state.rs::ClusterState::compute_digest", "state.rs::NodeState::digest"],
+                 cuts=[CUT_LISTENER], bounds={"members": 2 if two else 1, "scheduled_for_deletion": "symbolic", "frontier_heartbeat": "u64 symbolic"}, desc="digest lists exactly the members not scheduled for deletion, verbatim", mem=20 if two else 6, timeout=1800)
+    P["C12"] += [digest(False, ("quick", "thorough")), digest(True, ("thorough",))]
     # ---------------- C15
     PFX = {0: "''", 1: "'a'", 2: "'e-acute'", 3: "'a e-acute'", 4: "'grinning-face (4 bytes)'"}
     def c15d(p0, p1, two, drop, forever, tiers):
@@ -241,7 +245,7 @@ def plan():
         return H(f"c15_nopanic_{int(w)}", f"c15_any_key_no_panic({str(w).lower()})", mod="listener", macro="h_lst", unwind=6, tiers=tiers, rules=[(r"^memcmp", None, 9)], covers=["three-byte first character"],
                  funcs=["listener.rs::InnerListeners::trigger_event"], bounds={"key": "0..=2 arbitrary chars (all UTF-8 encodings of 1-4 bytes)", "subscriptions": "none" if not w else "one, empty prefix"},
                  desc="dispatch never panics on any key (F-2 regression check)", mem=14, timeout=1800)
-    P["C15"] = [c15n(False, ("quick", "thorough")), c15d(1, 0, False, False, False, ("quick", "thorough")), c15d(2, 0, True, False, False, ("quick", "thorough")), c15d(1, 3, True, True, True, ("quick", "thorough")),
+    P["C15"] = [c15n(False, ("quick", "thorough")), c15d(1, 0, False, False, False, ("quick", "thorough")), c15d(2, 0, True, False, False, ("thorough",)), c15d(1, 3, True, True, True, ("quick", "thorough")),
                 c15n(True, ("thorough",))] + [c15d(a, b, True, False, False, ("thorough",)) for (a, b) in ((0, 1), (1, 3), (2, 4), (3, 4), (0, 4), (1, 2))] + \
         [c15d(3, 0, False, False, False, ("thorough",)), c15d(4, 0, False, False, False, ("thorough",)), c15d(0, 1, True, True, False, ("thorough",)), c15d(2, 2, True, False, True, ("thorough",))]
     # ---------------- C17
